@@ -115,6 +115,14 @@ def check_track(ctx, tr, tl, w, bpm, name=None, instrument=None, metas=True, fir
             int.from_bytes(tempo[0]["data"], "big") == 60000000 // bpm
         ctx.check("meta: tempo = 60000000 div bpm as three bytes, not after the first note", okt, dict(w, bpm=bpm), 60000000 // bpm,
                   [(e["tick"], e["data"].hex()) for e in tempo][:3], mechanism="tempo")
+    if tl.get("tempos") is not None and first_tempo:
+        # containers that carry a tempo change: one tempo event each, at the tick where the container starts, with its value
+        # (the tempo the file was written with comes first, see above)
+        tempo = [e for e in tr if e["kind"] == "meta" and e["type"] == 0x51]
+        exp_t = [(tk, 60000000 // b) for (tk, b) in tl["tempos"]]
+        got_t = [(e["tick"], int.from_bytes(e["data"], "big")) for e in tempo[1:]]
+        ctx.check("meta: a container carrying a tempo emits it at the container's own tick", got_t == exp_t, w, exp_t[:6], got_t[:6],
+                  mechanism="tempo-change")
     if name is not None:
         nm = [e for e in tr if e["kind"] == "meta" and e["type"] == 0x03]
         ctx.check("meta: track name is emitted", bool(nm) and all(e["data"] == name.encode("ascii") for e in nm), dict(w, name=name), name,
@@ -198,8 +206,9 @@ def low_level_prelude():
 
 def change(rng, tspec, tobj, values, kw):
     nkw = dict((k, v) for k, v in kw.items() if k in ("velocity", "same_channel"))
+    bkw = dict(nkw, tempo_p=kw.get("tempo_p", 0))
     last = tspec["bars"][-1]
-    return MM.change_track(rng, tspec, tobj, lambda: MM.random_bar(rng, last["key"], tuple(last["meter"]), values, **nkw),
+    return MM.change_track(rng, tspec, tobj, lambda: MM.random_bar(rng, last["key"], tuple(last["meter"]), values, **bkw),
                            lambda: MM.random_notes(rng, **nkw))
 
 
@@ -235,7 +244,7 @@ def run(shard, ctx):
                 else:
                     one = rng.random() < 0.7
                     kw = dict(one_key_meter=one, instrument="random", velocity=vel, same_channel=rng.random() < 0.7,
-                              rest_p=rng.choice([0.1, 0.3, 0.5]))
+                              rest_p=rng.choice([0.1, 0.3, 0.5]), tempo_p=rng.choice([0, 0, 0.15, 0.4]))
                     if what == "bar":
                         t = MM.random_track(rng, values, nbars=1, **kw)
                         t["instrument"] = None
